@@ -1,8 +1,14 @@
 /* C11 side-car contracts: base64_encode / base64_decode / rot13 (src/Encoding.cc).
  * std::string results are vstr out-parameters (empty on entry, capacity = "allocation succeeds").
- * Universals are stated at ONE symbolic block / byte index fixed by the caller before the call (ghost index idiom): the
- * caller also supplies the octets of that block as ghost scalars (g_b*, g_c*), tied to the buffer by `requires`; all
- * specification macros (spec/C11_base64.h, RFC 4648) are evaluated over those scalars only. */
+ *
+ * Structure of the proofs.  The whole functions are proved under loop contracts.  In addition each loop body (and each
+ * branch of the encoder's tail) is extracted as a function of its own ("block", "tail1", "tail2") and proved against a
+ * loop-free step contract (a wrong step then fails a postcondition of its own, with a replayable input).
+ *
+ * Universals are stated at ONE symbolic group/block index g_blk fixed by the caller before the call (ghost index idiom);
+ * the caller supplies the octets of that group as ghost scalars (g_b*, g_c*), tied to the buffer by `requires`; all
+ * specification macros (spec/C11_base64.h, RFC 4648) are evaluated over scalars only.  g_s0..g_s3 are the octets the
+ * *current* block works on (set by a ghost statement right before the block is entered). */
 #ifndef C11_ENCODING_H
 #define C11_ENCODING_H
 #include "stubs/vstr.h"
@@ -20,10 +26,13 @@ extern const char URLSAFE_ALPHABET[];
 
 /* ghosts (defined in the harness) */
 extern int g_url;                          /* 1: RFC 4648 table 2 (URLSAFE_ALPHABET), 0: table 1 (default) */
-extern size_t g_blk;                       /* ghost block index */
+extern size_t g_len;                       /* size of the input buffer (for the block functions) */
+extern size_t g_blk;                       /* ghost group / block index */
 extern uint8_t g_b0, g_b1, g_b2;           /* encode: the octets of input group g_blk */
+extern char g_e0, g_e1, g_e2, g_e3;        /* encode: the characters RFC 4648 prescribes for group g_blk */
 extern uint8_t g_c0, g_c1, g_c2, g_c3;     /* decode: the characters of input block g_blk */
 extern uint8_t g_l2, g_l3;                 /* decode: the last two characters of the text */
+extern uint8_t g_s0, g_s1, g_s2, g_s3;     /* the octets of the group / block being processed right now */
 extern size_t g_wit;                       /* decode: offset of the block being examined when the exception was raised */
 extern size_t g_q, g_i;                    /* encode: size / 3 and the number of loop iterations begun */
 extern size_t g_k;                         /* rot13: ghost byte index */
@@ -32,44 +41,121 @@ extern char g_ch;                          /* rot13: the input byte at g_k */
 #define ALPHA_REQ \
   __CPROVER_requires(alphabet == 0 || alphabet == DEFAULT_ALPHABET || alphabet == URLSAFE_ALPHABET) \
   __CPROVER_requires(g_url == (alphabet == URLSAFE_ALPHABET))
+#define ALPHA_REQ_NONNULL \
+  __CPROVER_requires(alphabet == DEFAULT_ALPHABET || alphabet == URLSAFE_ALPHABET) \
+  __CPROVER_requires(g_url == (alphabet == URLSAFE_ALPHABET))
+/* empty result string with enough capacity */
 #define RET_REQ(need) \
   __CPROVER_requires(__CPROVER_is_fresh(ret, sizeof(vstr))) \
   __CPROVER_requires(ret->size == 0 && ret->cap <= VSTR_MAXCAP && ret->cap >= (need)) \
   __CPROVER_requires(__CPROVER_is_fresh(ret->data, ret->cap))
+/* result string being appended to, room for `room` more characters */
+#define RET_APPEND_REQ(room) \
+  __CPROVER_requires(__CPROVER_is_fresh(ret, sizeof(vstr))) \
+  __CPROVER_requires(ret->cap <= VSTR_MAXCAP && ret->size <= ret->cap && (room) <= ret->cap - ret->size) \
+  __CPROVER_requires(__CPROVER_is_fresh(ret->data, ret->cap))
+#define DATA_REQ(off, n) \
+  __CPROVER_requires(g_len <= C11_MAXLEN) \
+  __CPROVER_requires(__CPROVER_is_fresh(data, g_len)) \
+  __CPROVER_requires((off) <= g_len && (n) <= g_len - (off))
+/* appends only: earlier bytes of the string are not touched */
+#define APPEND_ASSIGNS(...) __CPROVER_assigns(__VA_ARGS__ ret->size, __CPROVER_object_from(ret->data + ret->size))
 
-/* ---------------------------------------------------------------------------------------------------------------
- * base64_encode: result length 4*ceil(size/3); characters 4k..4k+3 are the RFC 4648 encoding of input group k. */
-#define ENC_N (size - 3 * g_blk)          /* octets present in group g_blk (>= 1 when 3*g_blk < size) */
-#define ENC_C0 B64_ENC0(g_b0, g_b1, g_b2, ENC_N, g_url)
-#define ENC_C1 B64_ENC1(g_b0, g_b1, g_b2, ENC_N, g_url)
-#define ENC_C2 B64_ENC2(g_b0, g_b1, g_b2, ENC_N, g_url)
-#define ENC_C3 B64_ENC3(g_b0, g_b1, g_b2, ENC_N, g_url)
+/* ===============================================================================================================
+ * base64_encode */
 
+/* one complete 24-bit group -> four characters (loop body) */
+void base64_encode_block(vstr* ret, const uint8_t* data, size_t offset, const char* alphabet)
+RET_APPEND_REQ(4)
+DATA_REQ(offset, 3)
+ALPHA_REQ_NONNULL
+__CPROVER_requires(g_s0 == data[offset] && g_s1 == data[offset + 1] && g_s2 == data[offset + 2])
+__CPROVER_ensures(ret->size == __CPROVER_old(ret->size) + 4)
+__CPROVER_ensures(ret->data[ret->size - 4] == B64_ENC0(g_s0, g_s1, g_s2, 3, g_url))
+__CPROVER_ensures(ret->data[ret->size - 3] == B64_ENC1(g_s0, g_s1, g_s2, 3, g_url))
+__CPROVER_ensures(ret->data[ret->size - 2] == B64_ENC2(g_s0, g_s1, g_s2, 3, g_url))
+__CPROVER_ensures(ret->data[ret->size - 1] == B64_ENC3(g_s0, g_s1, g_s2, 3, g_url))
+APPEND_ASSIGNS();
+
+/* final quantum of 16 bits -> three characters and one '=' */
+void base64_encode_tail2(vstr* ret, const uint8_t* data, size_t end_offset, const char* alphabet)
+RET_APPEND_REQ(4)
+DATA_REQ(end_offset, 2)
+ALPHA_REQ_NONNULL
+__CPROVER_requires(g_s0 == data[end_offset] && g_s1 == data[end_offset + 1])
+__CPROVER_ensures(ret->size == __CPROVER_old(ret->size) + 4)
+__CPROVER_ensures(ret->data[ret->size - 4] == B64_ENC0(g_s0, g_s1, 0, 2, g_url))
+__CPROVER_ensures(ret->data[ret->size - 3] == B64_ENC1(g_s0, g_s1, 0, 2, g_url))
+__CPROVER_ensures(ret->data[ret->size - 2] == B64_ENC2(g_s0, g_s1, 0, 2, g_url))
+__CPROVER_ensures(ret->data[ret->size - 1] == B64_ENC3(g_s0, g_s1, 0, 2, g_url))
+APPEND_ASSIGNS();
+
+/* final quantum of 8 bits -> two characters and "==" */
+void base64_encode_tail1(vstr* ret, const uint8_t* data, size_t end_offset, const char* alphabet)
+RET_APPEND_REQ(4)
+DATA_REQ(end_offset, 1)
+ALPHA_REQ_NONNULL
+__CPROVER_requires(g_s0 == data[end_offset])
+__CPROVER_ensures(ret->size == __CPROVER_old(ret->size) + 4)
+__CPROVER_ensures(ret->data[ret->size - 4] == B64_ENC0(g_s0, 0, 0, 1, g_url))
+__CPROVER_ensures(ret->data[ret->size - 3] == B64_ENC1(g_s0, 0, 0, 1, g_url))
+__CPROVER_ensures(ret->data[ret->size - 2] == B64_ENC2(g_s0, 0, 0, 1, g_url))
+__CPROVER_ensures(ret->data[ret->size - 1] == B64_ENC3(g_s0, 0, 0, 1, g_url))
+APPEND_ASSIGNS();
+
+/* whole function: result length 4*ceil(size/3); characters 4k..4k+3 are the RFC 4648 encoding of input group k.
+ * g_e0..g_e3 are DEFINED by the requires clause below as the four characters RFC 4648 prescribes for group g_blk.
+ * g_q == size / 3: groups 0 .. g_q-1 are complete (three octets); group g_q exists iff size % 3 != 0 and holds the
+ * remaining one or two octets.  ENC_HAS: group g_blk exists;  ENC_N: the number of octets in it. */
+#define ENC_REM  (size - 3 * g_q)
+#define ENC_HAS  (g_blk < g_q || (g_blk == g_q && ENC_REM != 0))
+#define ENC_N    (g_blk < g_q ? 3 : ENC_REM)
 void base64_encode(vstr* ret, const void* vdata, size_t size, const char* alphabet)
 RET_REQ(2 * size + 4)
-__CPROVER_requires(size <= C11_MAXLEN)
+__CPROVER_requires(size <= C11_MAXLEN && g_len == size && g_q == size / 3)
 __CPROVER_requires(__CPROVER_is_fresh(vdata, size))
 ALPHA_REQ
 __CPROVER_requires(g_blk <= C11_MAXLEN)
-__CPROVER_requires(3 * g_blk + 0 < size ==> g_b0 == ((const uint8_t*)vdata)[3 * g_blk + 0])
-__CPROVER_requires(3 * g_blk + 1 < size ==> g_b1 == ((const uint8_t*)vdata)[3 * g_blk + 1])
-__CPROVER_requires(3 * g_blk + 2 < size ==> g_b2 == ((const uint8_t*)vdata)[3 * g_blk + 2])
-/* length: (ret->size / 4) == ceil(size / 3), written without division */
-__CPROVER_ensures((ret->size & 3) == 0 && 3 * (ret->size >> 2) >= size && 3 * (ret->size >> 2) < size + 3)
-__CPROVER_ensures(3 * g_blk < size ==> ret->data[4 * g_blk + 0] == ENC_C0)
-__CPROVER_ensures(3 * g_blk < size ==> ret->data[4 * g_blk + 1] == ENC_C1)
-__CPROVER_ensures(3 * g_blk < size ==> ret->data[4 * g_blk + 2] == ENC_C2)
-__CPROVER_ensures(3 * g_blk < size ==> ret->data[4 * g_blk + 3] == ENC_C3)
-__CPROVER_assigns(g_q, g_i, ret->size, __CPROVER_object_whole(ret->data));
+__CPROVER_requires(ENC_HAS ==> g_b0 == ((const uint8_t*)vdata)[3 * g_blk + 0])
+__CPROVER_requires((ENC_HAS && ENC_N >= 2) ==> g_b1 == ((const uint8_t*)vdata)[3 * g_blk + 1])
+__CPROVER_requires((ENC_HAS && ENC_N >= 3) ==> g_b2 == ((const uint8_t*)vdata)[3 * g_blk + 2])
+__CPROVER_requires(ENC_HAS ==> (g_e0 == B64_ENC0(g_b0, g_b1, g_b2, ENC_N, g_url) && g_e1 == B64_ENC1(g_b0, g_b1, g_b2, ENC_N, g_url) &&
+                                g_e2 == B64_ENC2(g_b0, g_b1, g_b2, ENC_N, g_url) && g_e3 == B64_ENC3(g_b0, g_b1, g_b2, ENC_N, g_url)))
+/* length: one block of four characters per group */
+__CPROVER_ensures(ret->size == 4 * (g_q + (ENC_REM != 0 ? 1 : 0)))
+__CPROVER_ensures(ENC_HAS ==> ret->data[4 * g_blk + 0] == g_e0)
+__CPROVER_ensures(ENC_HAS ==> ret->data[4 * g_blk + 1] == g_e1)
+__CPROVER_ensures(ENC_HAS ==> ret->data[4 * g_blk + 2] == g_e2)
+__CPROVER_ensures(ENC_HAS ==> ret->data[4 * g_blk + 3] == g_e3)
+__CPROVER_assigns(g_i, ret->size, __CPROVER_object_whole(ret->data));
 
-/* ---------------------------------------------------------------------------------------------------------------
+/* ===============================================================================================================
  * base64_decode: strict inverse.
  *   no exception  <=>  size % 4 == 0  and every block is acceptable (B64_BLOCK_OK: four alphabet characters, or the
  *   last block of the form xx== / xxx=); the only exception is invalid_argument.
- *   "=>" : at the caller's block g_blk  (DEC_OK fails  ==>  exception)
+ *   "=>" : at the caller's block g_blk  (block not acceptable  ==>  exception)
  *   "<=" : an exception raised inside the loop names the block it was examining (g_wit); when that is the caller's
  *          block, the block is not acceptable (generalise over g_blk: the witness block is never acceptable).
  *   output: 3 octets per block, minus the padding of the last block; octets 3k.. are the RFC decoding of block k. */
+
+/* one block of four characters (loop body).  The inverse table has to be right at the four characters looked up. */
+#define BLK_LAST (offset == end_offset - 4)
+#define BLK_OK   B64_BLOCK_OK(g_s0, g_s1, g_s2, g_s3, BLK_LAST, g_url)
+void base64_decode_block(vstr* ret, const uint8_t* data, size_t offset, size_t end_offset, const char* inverse_alphabet)
+RET_APPEND_REQ(3)
+DATA_REQ(offset, 4)
+__CPROVER_requires(verif_exc == 0 && end_offset <= C11_MAXLEN)
+__CPROVER_requires(__CPROVER_is_fresh(inverse_alphabet, 0x100))
+__CPROVER_requires(g_s0 == data[offset] && g_s1 == data[offset + 1] && g_s2 == data[offset + 2] && g_s3 == data[offset + 3])
+__CPROVER_requires((uint8_t)inverse_alphabet[g_s0] == B64_VAL(g_s0, g_url) && (uint8_t)inverse_alphabet[g_s1] == B64_VAL(g_s1, g_url))
+__CPROVER_requires((uint8_t)inverse_alphabet[g_s2] == B64_VAL(g_s2, g_url) && (uint8_t)inverse_alphabet[g_s3] == B64_VAL(g_s3, g_url))
+__CPROVER_ensures(BLK_OK ? verif_exc == 0 : verif_exc == EXC_invalid_argument)
+__CPROVER_ensures(verif_exc == 0 ==> ret->size == __CPROVER_old(ret->size) + B64_NOUT(g_s2, g_s3))
+__CPROVER_ensures(verif_exc == 0 ==> ret->data[__CPROVER_old(ret->size)] == (char)B64_DEC0(g_s0, g_s1, g_url))
+__CPROVER_ensures((verif_exc == 0 && B64_NOUT(g_s2, g_s3) >= 2) ==> ret->data[__CPROVER_old(ret->size) + 1] == (char)B64_DEC1(g_s1, g_s2, g_url))
+__CPROVER_ensures((verif_exc == 0 && B64_NOUT(g_s2, g_s3) >= 3) ==> ret->data[__CPROVER_old(ret->size) + 2] == (char)B64_DEC2(g_s2, g_s3, g_url))
+APPEND_ASSIGNS(verif_exc,);
+
 #define DEC_LAST (4 * g_blk + 4 == size)
 #define DEC_OK   B64_BLOCK_OK(g_c0, g_c1, g_c2, g_c3, DEC_LAST, g_url)
 #define DEC_NOUT B64_NOUT(g_c2, g_c3)
@@ -77,7 +163,7 @@ __CPROVER_assigns(g_q, g_i, ret->size, __CPROVER_object_whole(ret->data));
 
 void base64_decode(vstr* ret, const void* vdata, size_t size, const char* alphabet)
 RET_REQ(size)
-__CPROVER_requires(size <= C11_MAXLEN && verif_exc == 0)
+__CPROVER_requires(size <= C11_MAXLEN && verif_exc == 0 && g_len == size)
 __CPROVER_requires(__CPROVER_is_fresh(vdata, size))
 ALPHA_REQ
 __CPROVER_requires(g_blk <= C11_MAXLEN)
@@ -97,7 +183,7 @@ __CPROVER_ensures((verif_exc == 0 && 4 * g_blk < size && DEC_NOUT >= 2) ==> ret-
 __CPROVER_ensures((verif_exc == 0 && 4 * g_blk < size && DEC_NOUT >= 3) ==> ret->data[3 * g_blk + 2] == (char)B64_DEC2(g_c2, g_c3, g_url))
 __CPROVER_assigns(verif_exc, g_wit, ret->size, __CPROVER_object_whole(ret->data));
 
-/* ---------------------------------------------------------------------------------------------------------------
+/* ===============================================================================================================
  * rot13: same length, byte k is ROT13_SPEC of input byte k */
 void rot13(vstr* ret, const void* vdata, size_t size)
 RET_REQ(size)
